@@ -1,17 +1,4 @@
-mod c01;
-mod c02;
-mod c03;
-mod c06;
-mod c07;
-mod c08;
-mod c09;
-mod c10;
-mod c15;
-mod debug;
-mod e1;
-mod lib_spec;
-mod refgraph;
-mod wiring;
+use mc_graph::*;
 
 fn main() {
     let args: Vec<String> = std::env::args().skip(1).collect();
